@@ -522,7 +522,7 @@ func bulkCase(t *rapid.T, method string) {
 }
 
 func bulkTest(t *testing.T, method string) {
-	ev.Checks(1, 3)
+	ev.Checks(2, 6)
 	rapid.Check(t, func(t *rapid.T) { bulkCase(t, method) })
 }
 
